@@ -3,6 +3,7 @@ use super::resp::{AdvanceIndex, ArrayIndex, BulkStrIndex, DataIndex, IndexedResp
 use btoi::btoi;
 use bytes::BytesMut;
 use memchr::memchr;
+use std::cmp;
 use std::error::Error;
 use std::fmt;
 
@@ -100,7 +101,8 @@ fn parse_array_with_depth(buf: &[u8], depth: usize) -> Result<(ArrayIndex, usize
     }
 
     let array_size = len as usize;
-    let mut array = Vec::with_capacity(array_size);
+    // Every element needs at least one byte so there is no need to reserve more than that.
+    let mut array = Vec::with_capacity(cmp::min(array_size, buf.len()));
 
     for _ in 0..array_size {
         let next_buf = buf.get(consumed..).ok_or(ParseError::InvalidProtocol)?;
